@@ -548,7 +548,7 @@ def run_streams(run, tier, seed, hashseeds):
     run.coverage["streams"]["zcorpus"].update(model_tie_cases=ties, exported_with_an_implicit_name_that_avoided_an_explicit_signal=collided_corpus)
 
     # ---- genparams
-    n = 28 if quick else 240
+    n = 28 if quick else 120
     jobs = [gen_gparam(core.rng(seed, "C12", "genparams", k), tag=f"_{k}") for k in range(n)]
     obs, bad, _ = c12.evaluate(run, "genparams", jobs, hashseeds, seed, 14 if quick else 40,
                                nontrivial=lambda j: "hash_ordered_set" in job_features(j),
@@ -573,7 +573,7 @@ def run_streams(run, tier, seed, hashseeds):
     need(run, "genparams", "naming texts tied to the model", ties, 10)
 
     # ---- longnames
-    n = 36 if quick else 200
+    n = 36 if quick else 100
     jobs = []
     for k in range(n):
         r = core.rng(seed, "C12", "longnames", k)
@@ -606,7 +606,7 @@ def run_streams(run, tier, seed, hashseeds):
     need(run, "longnames", "designs (zcorpus + longnames) exported with an implicit name that had to avoid an explicit signal", collided + collided_corpus, 1)
 
     # ---- pdkreg: one program per interpreter
-    n = 5 if quick else 60
+    n = 5 if quick else 12
     jobs = reg_corpus + [gen_prog(core.rng(seed, "C12", "pdkreg", k)) for k in range(n)]
     obs, bad, _ = c12.evaluate(run, "pdkreg", jobs, hashseeds, seed, 1,
                                nontrivial=lambda j: bool(prog_features(j["ops"]) & {"ambiguous_default", "single_registered_default", "explicit_default_used"}),
